@@ -42,6 +42,14 @@ def run(ctx):
         ob_failed.append("harness does not build against the source tree: " + hlog[-800:])
     else:
         args = [hb, "-seed", str(ctx.seed), "-tier", ctx.tier, "-out", ctx.work]
+        # the real binary, built from the current tree, for the end-to-end dispatch cases
+        fwd = os.path.join(ctx.work, "forwarder")
+        rc, blog = common.sh([common.go_cmd(), "build", "-o", fwd, "./cmd/forwarder"], cwd=ctx.repo,
+                             env=common.go_env(), timeout=900)
+        if rc != 0:
+            ob_failed.append("forwarder binary does not build: " + blog[-600:])
+        else:
+            args += ["-forwarder", fwd]
         if ctx.replay:
             rp = json.load(open(ctx.replay))
             inner = os.path.join(ctx.work, "replay_in.json")
@@ -57,11 +65,14 @@ def run(ctx):
                 ob_failed.append("correspondence shard %s did not evaluate: %s" % (shard, lg[-600:]))
             pj = load_jsonl(os.path.join(ctx.work, "pcases.jsonl"))
             aj = load_jsonl(os.path.join(ctx.work, "acases.jsonl"))
+            ej = load_jsonl(os.path.join(ctx.work, "ecases.jsonl"))
+            if meta.get("e2e_error"):
+                ob_failed.append("end-to-end run failed: " + meta["e2e_error"])
             for shard in meta["shards"]:
                 r = res.get(shard) or {}
                 kind, idx = shard.split("_")[0], int(shard.split("_")[1].split(".")[0])
                 base = idx * meta["shard_size"]
-                src = pj if kind == "pcases" else aj
+                src = {"pcases": pj, "acases": aj, "ecases": ej}[kind]
                 for ident, acc in (("M", model_bad), ("P", prop_bad)):
                     for i in (ctx.parse_nlist(r.get(ident)) or []):
                         case = src[base + i] if base + i < len(src) else {"index": base + i}
@@ -73,14 +84,37 @@ def run(ctx):
     def replay_of(kc):
         kind, case = kc
         d = dict(case)
-        d["kind"] = "parser" if kind == "pcases" else "applier"
+        d["case_kind"] = d.get("kind")
+        d["kind"] = {"pcases": "parser", "acases": "applier", "ecases": "e2e"}[kind]
         return d
 
     # 5. decide (DESIGN.md 2.2)
-    for kind, label in (("pcases", "parser"), ("acases", "applier")):
-        pb = [kc for kc in prop_bad if kc[0] == kind]
-        mb = [kc for kc in model_bad if kc[0] == kind]
-        if pb:
+    # end-to-end cases are keyed by message kind (call site), so a known finding on one
+    # kind does not hide a violation on another
+    streams = [("pcases", "parser", None), ("acases", "applier", None)]
+    streams += [("ecases", "e2e-" + k, k) for k in ("ReqPlain", "ReqConnect", "RespPlain", "RespConnect")]
+    for kind, label, sub in streams:
+        pb = [kc for kc in prop_bad if kc[0] == kind and (sub is None or kc[1].get("kind") == sub)]
+        mb = [kc for kc in model_bad if kc[0] == kind and (sub is None or kc[1].get("kind") == sub)]
+        if pb and kind == "ecases":
+            # split: failures the faithful model of the wiring explains (same on model and binary)
+            # versus unexplained ones (model differs too) — different keys, so a known finding on the
+            # former never hides the latter
+            mbset = {json.dumps(kc[1], sort_keys=True) for kc in mb}
+            explained = [kc for kc in pb if json.dumps(kc[1], sort_keys=True) not in mbset]
+            unexplained = [kc for kc in pb if json.dumps(kc[1], sort_keys=True) in mbset]
+            if explained:
+                kc = smallest(explained)
+                ctx.violation("%s-rules-not-applied-once-in-order-as-modelled" % label, replay_of(kc), True,
+                              "%d end-to-end cases where the observed header set is not the rules applied once in order "
+                              "(the model of the wiring predicts exactly this output); smallest: %s"
+                              % (len(explained), json.dumps(kc[1])[:400]))
+            if unexplained:
+                kc = smallest(unexplained)
+                ctx.violation("%s-output-violates-property" % label, replay_of(kc), True,
+                              "%d end-to-end cases failing the C16 predicate and not predicted by the model; smallest: %s"
+                              % (len(unexplained), json.dumps(kc[1])[:400]))
+        elif pb:
             kc = smallest(pb)
             ctx.violation("%s-output-violates-property" % label, replay_of(kc), True,
                           "%d cases where the implementation's own output fails the C16 predicate; smallest: %s"
@@ -99,7 +133,7 @@ def run(ctx):
         for v in ctx.violations:
             pass
 
-    nontriv = int(meta.get("parser_accepted", 0)) + int(meta.get("applier_cases", 0))
+    nontriv = int(meta.get("parser_accepted", 0)) + int(meta.get("applier_cases", 0)) + int(meta.get("e2e_cases", 0))
     coverage = {
         "obligations": len(info["theorems"]),
         "discharged": len(info["discharged"]),
@@ -112,7 +146,8 @@ def run(ctx):
         ]),
         "theorems": info["theorems"],
         "unchecked_obligations": ob_failed,
-        "evaluations": int(meta.get("parser_cases", 0)) + int(meta.get("applier_cases", 0)),
+        "evaluations": int(meta.get("parser_cases", 0)) + int(meta.get("applier_cases", 0)) + int(meta.get("e2e_cases", 0)),
+        "e2e_cases_real_binary": meta.get("e2e_kinds"),
         "distinct_nontrivial": nontriv,
         "rule": "parser: every string of length <= %s over a 12-symbol alphabet (exhaustive) + grammar-generated rules + mutated rules; "
                 "applier: random rule lists (1..8 parseable rules) x header maps (<=6 keys incl. keys differing only in case); "
@@ -122,7 +157,8 @@ def run(ctx):
         "property_failures_on_impl": len(prop_bad),
         "distribution": {k: meta.get(k) for k in ("parser_accepted", "parser_rejected", "applier_rule_actions",
                                                    "applier_rule_list_lengths")},
-        "samples": [{"parser_inputs": meta.get("samples_parser")}, {"applier": meta.get("samples_applier")}],
+        "samples": [{"parser_inputs": meta.get("samples_parser")}, {"applier": meta.get("samples_applier")},
+                    {"e2e": meta.get("samples_e2e")}],
     }
     ctx.finish("proof", coverage, [
         "the theorems are about the Gallina model; the model is tied to the code by gen/tables (shape flags, regex literals) "
